@@ -7,10 +7,20 @@ Model: `TM.applySGR` / `TM.sgrSimple` / `TM.Style.*` (`style.go`, `case 'm'` of 
 
 Part A gives a readable specification (`Mode`, `AColor`, `AStyle`, `Sgr.simple`, `Sgr.fold`), the
 decoding `abs : Style → AStyle` of the packed words and the invariant `Style.valid`.
-Part B proves that the packed implementation refines the specification for every parameter list,
-that `abs` is injective on valid styles, frame lemmas for all thirteen modes and both colours,
-the dispatch of `CSI … m`, and that written / blanked cells carry exactly the given style.
-All bit-level proofs are kernel-only.
+
+Part B:
+* B1 `sgrSimple_refines`, `packed_refines` (no hypothesis on the start style, every `Int`, every
+  length, truncated forms), `applySGR_valid`, `reachable_valid`, `init_style_valid`;
+* B2 `abs_injective` (+ `abs_injective_words`) on valid styles;
+* B3 `setMode_testMode`, `resetMode_testMode`, `setMode_out_of_range`, `setMode_color_frame`,
+  `resetMode_color_frame`, `set/resetMode_absColor`, `setColor_testMode`, `abs_setColor256/Bright/
+  RGB/Default`, `setColor256/Bright_reject`, `blackish_abs(_bg)`, `blackish_packed_distinct`,
+  `mode_code_roundtrip`;
+* B4 `sgr_dispatch`, `sgr_dispatch_apply`, `sgr_dispatch_abs`, `written_cell`, `written_style`,
+  `erased_cell`, `eraseRegion_cell`, end-to-end `sgr_then_erase_line`, `put_style_provenance`,
+  `sgr_then_text_provenance`, and the restricted `put_cell_partial`, `sgr_then_text_partial`;
+* B5 `sgr_reset`, `sgr_zero`, `sgr_append` (side condition `Sgr.closed`), `sgr_foldl`.
+All bit-level proofs are kernel-only (`getLsbD` extensionality, `omega`, finite `decide`).
 -/
 namespace TM.C07
 open TM
@@ -1417,6 +1427,270 @@ theorem sgr_then_text_partial (cw : Nat → Nat) (t : Term) (ps : List Int) (sto
     (by show t.scr.cy < t.scr.grid.length; omega) hrow i hi
   exact ⟨this.1, this.2, packed_refines _ _⟩
 
+/-! ## No foreign style ever appears: provenance of every cell after a write -/
+
+namespace Lemmas
+
+/-- every cell of `r'` either carries `st` or was already in `r` -/
+def RowProv (st : Style) (r r' : Row) : Prop := ∀ c ∈ r', c.sty = st ∨ c ∈ r
+
+theorem RowProv.refl (st : Style) (r : Row) : RowProv st r r := fun _ h => Or.inr h
+
+theorem RowProv.trans {st : Style} {a b c : Row} (h1 : RowProv st a b) (h2 : RowProv st b c) :
+    RowProv st a c := by
+  intro x hx
+  rcases h2 x hx with h | h
+  · exact Or.inl h
+  · exact h1 x h
+
+theorem prov_blankRange (r : Row) (a n : Nat) (st : Style) : RowProv st r (blankRange r a n st) := by
+  intro c hc
+  obtain ⟨i, hi, e⟩ := List.exists_of_mem_mapIdx hc
+  split at e
+  · left; rw [← e]; rfl
+  · right; rw [← e]; exact List.getElem_mem hi
+
+theorem prov_blankCharAt (r : Row) (x : Nat) (st : Style) : RowProv st r (blankCharAt r x st) := by
+  unfold blankCharAt; simp only []
+  split
+  · exact RowProv.refl _ _
+  · exact prov_blankRange _ _ _ _
+
+theorem prov_blankStraddlers (r : Row) (a b : Nat) (st : Style) :
+    RowProv st r (blankStraddlers r a b st) := by
+  unfold blankStraddlers; simp only []
+  generalize hr1 : (if contAt r a then blankCharAt r a st else r) = r1
+  have h1 : RowProv st r r1 := by
+    rw [← hr1]; split
+    · exact prov_blankCharAt _ _ _
+    · exact RowProv.refl _ _
+  split
+  · exact h1.trans (prov_blankCharAt _ _ _)
+  · exact h1
+
+theorem sty_of_mem_charCells {text : Bytes} {w : Nat} {st : Style} {c : Cell}
+    (h : c ∈ charCells text w st) : c.sty = st := by
+  unfold charCells at h
+  rcases List.mem_cons.mp h with h | h
+  · rw [h]
+  · rw [(List.mem_replicate.mp h).2]
+
+theorem mem_setRange {r : Row} {a : Nat} {cells : List Cell} {c : Cell}
+    (h : c ∈ setRange r a cells) : c ∈ cells ∨ c ∈ r := by
+  obtain ⟨i, hi, e⟩ := List.exists_of_mem_mapIdx h
+  split at e
+  · rename_i hin
+    have hlt : i - a < cells.length := by omega
+    rw [List.getD_eq_getElem?_getD, List.getElem?_eq_getElem hlt, Option.getD_some] at e
+    left; rw [← e]; exact List.getElem_mem hlt
+  · right; rw [← e]; exact List.getElem_mem hi
+
+theorem prov_put (r : Row) (x : Nat) (text : Bytes) (w : Nat) (st : Style) :
+    RowProv st r (r.put x text w st) := by
+  intro c hc
+  unfold Row.put at hc
+  rcases mem_setRange hc with h | h
+  · exact Or.inl (sty_of_mem_charCells h)
+  · exact prov_blankStraddlers _ _ _ _ c h
+
+theorem prov_fixTail (r : Row) (st : Style) : RowProv st r (fixTail r st) := by
+  unfold fixTail
+  split
+  · split
+    · intro c hc
+      rcases List.mem_append.mp hc with h | h
+      · exact Or.inr (List.dropLast_subset _ h)
+      · left; rw [List.mem_singleton.mp h]; rfl
+    · exact RowProv.refl _ _
+  · exact RowProv.refl _ _
+
+theorem prov_putKeep (r : Row) (x : Nat) (text : Bytes) (w : Nat) (st : Style) :
+    RowProv st r (r.putKeep x text w st) := by
+  unfold Row.putKeep; simp only []
+  refine RowProv.trans ?_ (prov_fixTail _ _)
+  have h1 : RowProv st r (if contAt r (x + w) then blankCharAt r (x + w) st else r) := by
+    split
+    · exact prov_blankCharAt _ _ _
+    · exact RowProv.refl _ _
+  intro c hc
+  have hc := List.mem_of_mem_take hc
+  rcases List.mem_append.mp hc with h | h
+  · rcases List.mem_append.mp h with h | h
+    · exact h1 c (List.mem_of_mem_take h)
+    · exact Or.inl (sty_of_mem_charCells h)
+  · exact h1 c (List.mem_of_mem_drop h)
+
+/-- every cell of the grid `g'` either carries `st` or was already somewhere in the grid `g` -/
+def GridProv (st : Style) (g g' : List Row) : Prop :=
+  ∀ r' ∈ g', ∀ c ∈ r', c.sty = st ∨ ∃ r ∈ g, c ∈ r
+
+theorem GridProv.refl (st : Style) (g : List Row) : GridProv st g g :=
+  fun r hr _ hc => Or.inr ⟨r, hr, hc⟩
+
+theorem GridProv.trans {st : Style} {g1 g2 g3 : List Row} (h1 : GridProv st g1 g2)
+    (h2 : GridProv st g2 g3) : GridProv st g1 g3 := by
+  intro r hr x hx
+  rcases h2 r hr x hx with h | ⟨r', hr', hx'⟩
+  · exact Or.inl h
+  · exact h1 r' hr' x hx'
+
+theorem prov_of_rows {st : Style} {g g' : List Row}
+    (h : ∀ r' ∈ g', r' ∈ g ∨ ∀ c ∈ r', c.sty = st) : GridProv st g g' := by
+  intro r hr c hc
+  rcases h r hr with h | h
+  · exact Or.inr ⟨r, h, hc⟩
+  · exact Or.inl (h c hc)
+
+theorem sty_of_mem_blankRow {w : Nat} {st : Style} {c : Cell} (h : c ∈ blankRow w st) :
+    c.sty = st := by
+  unfold blankRow at h; rw [(List.mem_replicate.mp h).2]; rfl
+
+theorem scroll_sty (s : Scr) (y1 y2 : Nat) (d : Int) : (s.scroll y1 y2 d).sty = s.sty := by
+  unfold Scr.scroll; split <;> rfl
+
+theorem prov_scroll (s : Scr) (y1 y2 : Nat) (d : Int) :
+    GridProv s.sty s.grid (s.scroll y1 y2 d).grid := by
+  unfold Scr.scroll
+  split
+  · exact GridProv.refl _ _
+  · apply prov_of_rows
+    intro r hr
+    simp only [] at hr
+    have hblank : ∀ k, r ∈ List.replicate k (blankRow s.w s.sty) → ∀ c ∈ r, c.sty = s.sty := by
+      intro k h c hc; rw [(List.mem_replicate.mp h).2] at hc; exact sty_of_mem_blankRow hc
+    rcases List.mem_append.mp hr with h | h
+    · rcases List.mem_append.mp h with h | h
+      · exact Or.inl (List.mem_of_mem_take h)
+      · split at h
+        · rcases List.mem_append.mp h with h | h
+          · exact Or.inr (hblank _ h)
+          · exact Or.inl (List.mem_of_mem_drop (List.mem_of_mem_take (List.mem_of_mem_take h)))
+        · rcases List.mem_append.mp h with h | h
+          · exact Or.inl (List.mem_of_mem_drop (List.mem_of_mem_take (List.mem_of_mem_drop h)))
+          · exact Or.inr (hblank _ h)
+    · exact Or.inl (List.mem_of_mem_drop h)
+
+theorem lineDown_sty (s : Scr) : s.lineDown.sty = s.sty := by
+  unfold Scr.lineDown
+  split
+  · exact scroll_sty _ _ _ _
+  · split <;> rfl
+
+theorem prov_lineDown (s : Scr) : GridProv s.sty s.grid s.lineDown.grid := by
+  unfold Scr.lineDown
+  split
+  · exact prov_scroll _ _ _ _
+  · split <;> exact GridProv.refl _ _
+
+theorem prov_setRow (s : Scr) (y : Nat) (r' : Row) (st : Style) (h : RowProv st (s.row y) r') :
+    GridProv st s.grid (s.setRow y r').grid := by
+  intro r hr c hc
+  rcases List.mem_or_eq_of_mem_set hr with hm | he
+  · exact Or.inr ⟨r, hm, hc⟩
+  · subst he
+    rcases h c hc with h | h
+    · exact Or.inl h
+    · right
+      unfold Scr.row at h
+      rw [List.getD_eq_getElem?_getD] at h
+      cases hy : s.grid[y]? with
+      | none => rw [hy] at h; simp at h
+      | some r0 => rw [hy] at h; exact ⟨r0, List.mem_of_getElem? hy, h⟩
+
+/-- first step of `Scr.put`: make room (wrap to the next line, or step back) -/
+def putPre (s : Scr) (w : Nat) : Scr :=
+  if s.cx + w > s.w then
+    (if s.wrap then ({ s with cx := 0 } : Scr).lineDown else { s with cx := s.w - w })
+  else s
+
+/-- last step of `Scr.put`: advance the cursor (wrapping when allowed) -/
+def putPost (s : Scr) (x : Nat) : Scr :=
+  if x < s.w then { s with cx := x }
+  else if s.wrap then ({ s with cx := x - s.w } : Scr).lineDown
+  else { s with cx := s.w - 1 }
+
+theorem put_eq (pol : WidePolicy) (s : Scr) (text0 : Bytes) (w0 : Nat) :
+    s.put pol text0 w0 =
+      (let tooWide := max w0 1 > s.w
+       let text := if tooWide then replacementChar else text0
+       let w := if tooWide then 1 else max w0 1
+       let s1 := putPre s w
+       let r := s1.row s1.cy
+       let keep := contAt r s1.cx && pol == .keep
+       let r' := if keep then r.putKeep s1.cx text w s1.sty else r.put s1.cx text w s1.sty
+       putPost (s1.setRow s1.cy r')
+         (s1.cx + w + (if keep then headOf r s1.cx + widthAt r (headOf r s1.cx) - s1.cx else 0))) :=
+  rfl
+
+theorem prov_putPre (s : Scr) (w : Nat) :
+    (putPre s w).sty = s.sty ∧ GridProv s.sty s.grid (putPre s w).grid := by
+  unfold putPre
+  split
+  · split
+    · exact ⟨lineDown_sty _, prov_lineDown ({ s with cx := 0 } : Scr)⟩
+    · exact ⟨rfl, GridProv.refl _ _⟩
+  · exact ⟨rfl, GridProv.refl _ _⟩
+
+theorem prov_putPost (s : Scr) (x : Nat) :
+    (putPost s x).sty = s.sty ∧ GridProv s.sty s.grid (putPost s x).grid := by
+  unfold putPost
+  split
+  · exact ⟨rfl, GridProv.refl _ _⟩
+  · split
+    · exact ⟨lineDown_sty _, prov_lineDown ({ s with cx := x - s.w } : Scr)⟩
+    · exact ⟨rfl, GridProv.refl _ _⟩
+
+end Lemmas
+
+/-- **written cells, screen level, all branches** (wrap, scroll, too-wide substitution, both wide
+    policies): after printing a character, every cell of the grid either carries the screen's
+    current style or is a cell that was already on the screen. No other style is ever
+    introduced, and the current style itself is unchanged. -/
+theorem put_style_provenance (pol : WidePolicy) (s : Scr) (text : Bytes) (w0 : Nat) :
+    (s.put pol text w0).sty = s.sty ∧
+    ∀ r' ∈ (s.put pol text w0).grid, ∀ c ∈ r', c.sty = s.sty ∨ ∃ r ∈ s.grid, c ∈ r := by
+  rw [put_eq]
+  simp only []
+  generalize (if max w0 1 > s.w then 1 else max w0 1) = w
+  generalize (if max w0 1 > s.w then replacementChar else text) = tx
+  obtain ⟨hs1, hg1⟩ := prov_putPre s w
+  generalize putPre s w = s1 at hs1 hg1 ⊢
+  generalize hr' : (if (contAt (s1.row s1.cy) s1.cx && pol == .keep) = true
+      then (s1.row s1.cy).putKeep s1.cx tx w s1.sty else (s1.row s1.cy).put s1.cx tx w s1.sty) = r'
+  have hp : RowProv s1.sty (s1.row s1.cy) r' := by
+    rw [← hr']; split
+    · exact prov_putKeep _ _ _ _ _
+    · exact prov_put _ _ _ _ _
+  have h2 : GridProv s1.sty s1.grid (s1.setRow s1.cy r').grid := prov_setRow s1 s1.cy r' s1.sty hp
+  generalize (s1.cx + w + (if (contAt (s1.row s1.cy) s1.cx && pol == .keep) = true
+      then headOf (s1.row s1.cy) s1.cx + widthAt (s1.row s1.cy) (headOf (s1.row s1.cy) s1.cx) - s1.cx
+      else 0)) = x
+  obtain ⟨hs3, hg3⟩ := prov_putPost (s1.setRow s1.cy r') x
+  have e2 : (s1.setRow s1.cy r').sty = s1.sty := rfl
+  rw [e2] at hs3 hg3
+  rw [hs1] at hs3 hg3 h2
+  exact ⟨hs3, hg1.trans (h2.trans hg3)⟩
+
+/-- `CSI ps m` followed by any printed character, any screen state: afterwards the current style
+    is still the fold of `ps`, and every cell on the screen either carries it or was there before -/
+theorem sgr_then_text_provenance (cw : Nat → Nat) (t : Term) (ps : List Int) (stored : Bytes)
+    (cp : Nat) :
+    let st := applySGR t.scr.sty (if ps = [] then [0] else ps)
+    let t1 := (Term.apply cw t (.csi 0 ps true 0x6d)).1
+    let t2 := (Term.apply cw t1 (.text stored cp)).1
+    t2.scr.sty = st ∧ abs st = Sgr.fold (abs t.scr.sty) (if ps = [] then [0] else ps) ∧
+    ∀ r' ∈ t2.scr.grid, ∀ c ∈ r', c.sty = st ∨ ∃ r ∈ t.scr.grid, c ∈ r := by
+  intro st t1 t2
+  have h1 : t1.scr = { t.scr with sty := st } := by
+    show ((Term.apply cw t (.csi 0 ps true 0x6d)).1).scr = _
+    rw [sgr_dispatch_apply]; exact (sgr_dispatch t ps).2.1
+  have h2 : t2.scr = t1.scr.put t1.pol stored (cw cp) := by
+    show ((Term.apply cw t1 (.text stored cp)).1).scr = _
+    simp only [Term.apply]; rw [scr_setScr]
+  have := put_style_provenance t1.pol t1.scr stored (cw cp)
+  rw [← h2, h1] at this
+  exact ⟨this.1, packed_refines _ _, this.2⟩
+
 /-! ## Non-vacuity and sanity examples -/
 
 example : Style.valid Style.default := by decide
@@ -1516,3 +1790,5 @@ end TM.C07
 #print axioms TM.C07.sgr_then_erase_line
 #print axioms TM.C07.put_cell_partial
 #print axioms TM.C07.sgr_then_text_partial
+#print axioms TM.C07.put_style_provenance
+#print axioms TM.C07.sgr_then_text_provenance
